@@ -96,7 +96,7 @@ class Ghost:
     def step(self, op):
         """apply a top-level op token; returns False if it is ill-formed"""
         k = op[0]
-        if k in "-km":
+        if k in "-kmZ":
             return True
         if k == 'U':
             return self.usable(int(op[1:].split('.')[0]))
@@ -137,33 +137,46 @@ class Ghost:
 
 
 RESTACK = "RLFB"
-SIMPLE = "shtxgyqzP"      # calls on one usable window (q z P: set_pen with its own pen / NULL / a fresh pen)
+SIMPLE = "shtxgyqzPp"     # calls on one usable window (q z P: set_pen with its own pen / NULL / a fresh pen; p: reposition)
 PAIR = "Qo"                # calls on two usable windows (set_pen with the other window's pen; scrollrect with it)
 
 
-def gen_wf_script(rnd, maxops, events, release):
+def gen_wf_script(rnd, maxops, events, release, efg=False):
     """a script that is well-formed as far as its top-level calls go; handler bodies are drawn
     from calls that are plausible for the moment they were bound"""
     g = Ghost()
     toks = []
     nwin = 1
+    armed = False      # an EXPOSE / FOCUS / GEOMCHANGE handler is bound: flush, take_focus and set_geometry dispatch
 
     def pick(pred):
         c = [i for i in range(nwin) if pred(i)]
         return rnd.choice(c) if c else None
 
-    def action_for(i):
+    def action_for(i, kind="k"):
         """a short handler body about window i or its neighbours"""
         others = [j for j in range(1, nwin) if g.held(j)]
         j = rnd.choice(others) if others else i
         serial = sum(1 for t in toks if t[0] == 'b')      # the number this handler will get
+        if kind in "efg":
+            # a handler of a kind that the calls below dispatch themselves: it may only make such a call after it has
+            # unbound itself (else the nesting would not end: the harness cuts it off at depth 6, the model does not)
+            if rnd.random() < 0.35:
+                return "U%d.%d,%s" % (i, serial, rnd.choice([
+                    "y%d" % i, "t%d" % i, "x%d,f0" % i, "f0", "t%d" % j, "y%d" % j, "c%d,u%d,f0" % (i, i), "x0,f0,u%d" % j,
+                    "t%d,c%d,u%d" % (j, j, j), "c%d,u%d" % (i, i), "-"]))
+            return rnd.choice([
+                "c%d,u%d" % (i, i), "u%d" % i, "c%d,u%d" % (j, j), "u%d" % j, "c%d" % j, "c%d" % i, "r%d" % j, "R%d" % j, "h%d" % j,
+                "L%d,c%d,u%d" % (j, j, j), "n%d.0" % j, "n%d.0" % i, "x%d" % j, "u0", "c%d,u%d,u0" % (i, i), "s%d" % j, "-",
+                "q%d" % i, "z%d,P%d" % (j, j), "N%d.1" % j,
+            ])
         if rnd.random() < 0.2:
             # unbind itself, then something that dispatches another event on the same window
             return "U%d.%d,%s" % (i, serial, rnd.choice(["y%d" % i, "t%d" % i, "y%d,t%d" % (i, i), "x%d" % i, "-"]))
         return rnd.choice([
             "c%d,u%d" % (i, i), "u%d" % i, "c%d,u%d" % (j, j), "u%d" % j, "c%d" % j, "r%d" % j, "R%d" % j, "h%d" % j,
             "L%d,c%d,u%d" % (j, j, j), "n%d.0" % j, "f0", "t%d" % j, "y%d" % j, "y%d" % i, "-", "-",
-            "q%d" % i, "Q%d.%d" % (i, j), "z%d,P%d" % (j, j), "o%d.%d" % (j, i),
+            "q%d" % i, "Q%d.%d" % (i, j), "z%d,P%d" % (j, j), "o%d.%d" % (j, i), "p%d" % i, "p%d" % j,
         ])
 
     for _ in range(maxops):
@@ -200,13 +213,20 @@ def gen_wf_script(rnd, maxops, events, release):
         elif events and r < 0.93:
             i = pick(g.usable)
             if i is not None:
-                if rnd.random() < 0.5:
+                rk = rnd.random()
+                if efg and rk < 0.5:
+                    kind = rnd.choice("efg")
+                    op = "b%d.%s.0.%d.%s" % (i, kind, rnd.randint(0, 1), action_for(i, kind))
+                    armed = True
+                elif efg and rk < 0.6:
+                    op = "N%d.%d" % (i, rnd.randint(0, 1))
+                elif rnd.random() < 0.5:
                     op = "b%d.k.0.%d.%s" % (i, rnd.randint(0, 1), action_for(i))
                 else:
                     mask = rnd.choice([0xff, 0x01, 0x02, 0x04, 0x10, 0x20, 0x40, 0x80, 0x12])
                     op = "b%d.m.%x.%d.%s" % (i, mask, rnd.randint(0, 1), action_for(i))
         elif events:
-            op = rnd.choice(["k", "mp", "md", "md", "mr", "mw"])
+            op = rnd.choice(["k", "mp", "md", "md", "mr", "mw"] + (["Z"] if efg else []))
         if op is None:
             continue
         if not g.step(op):
@@ -214,10 +234,10 @@ def gen_wf_script(rnd, maxops, events, release):
         if op[0] == 'n':
             nwin += 1
         toks.append(op)
-        if op[0] in "km":
+        if op[0] in "kmZ" or (armed and op[0] in "tyfp"):
             # the ghost of the generator does not follow handlers: stop relying on it
             break
-    if release and not any(t[0] in "km" for t in toks):
+    if release and not armed and not any(t[0] in "kmZ" for t in toks):
         order = [i for i in range(nwin)]
         rnd.shuffle(order)
         progress = True
@@ -309,6 +329,61 @@ def gen_W(tier, seed, info):
             for tear in (["u1", "u2", "f0"], ["u2", "u1", "u0"]):
                 stats["exhaustive"] += 1
                 yield "W n0.0 n0.0 " + " ".join(list(seq) + tear)
+    # EXPOSE / FOCUS / GEOMCHANGE handlers: tree root > 1 > 2, root > 3; a handler on any window releases, closes or
+    # closes+releases any window (its own included), with and without an extra client reference on the target;
+    # expose: the whole tree is exposed and flushed; focus: the focus moves 2 -> 3 -> 1 (with and without
+    # focus_child_notify on the ancestors); geomchange: the window is resized
+    efg_pre = ["n0.0", "n1.0", "n0.0"]
+    for bound in range(4):
+        for target in range(4):
+            for body in ("c%d,u%d", "u%d", "c%d"):
+                if target == 0 and body == "c%d":
+                    continue
+                b = body.replace("%d", str(target))
+                for keep in ([], ["r%d" % target]):
+                    for once in (False, True):
+                        bb = ("U%d.0," % bound if once else "") + b
+                        for kind, runs in (("e", [["x0", "f0", "f0"], ["x%d" % bound, "f0", "x0", "f0"]]),
+                                           ("f", [["t2", "t3", "t1", "f0"], ["N0.1", "N1.1", "t2", "t3", "t1", "f0"],
+                                                  ["N0.1", "N1.1", "t%d" % target, "t0", "f0"]]),
+                                           ("g", [["y%d" % bound, "f0"], ["y%d" % bound, "y%d" % bound, "x0", "f0"]])):
+                            for run in runs:
+                                stats["exhaustive"] += 1
+                                yield "W " + " ".join(efg_pre + keep + ["b%d.%s.0.0.%s" % (bound, kind, bb)] + run)
+    # two handlers of the same kind on one window, the first removes the window (or the second handler); nested
+    # dispatch from a handler that has unbound itself: flush inside expose, take_focus inside focus, resize inside geomchange
+    for kind, trig in (("e", ["x0", "f0"]), ("f", ["t1"]), ("g", ["y1"])):
+        for first in ("c1,u1", "u1", "U1.1", "U1.0", "c1"):
+            for second in ("u1", "c1,u1", "r1", "-"):
+                stats["exhaustive"] += 1
+                yield "W n0.0 b1.%s.0.0.%s b1.%s.0.0.%s %s f0 u0" % (kind, first, kind, second, " ".join(trig))
+        for nested in ("x1,f0", "x0,f0,c1,u1", "t1", "t0", "y1", "y1,c1,u1", "f0", "c1,u1,f0", "t1,c1,u1", "u0"):
+            for where in (0, 1):
+                stats["exhaustive"] += 1
+                yield "W n0.0 b%d.%s.0.0.U%d.0,%s %s f0 u0" % (where, kind, where, nested, " ".join(trig))
+    # a handler releases its own window and then ancestors of it, in every order (the ancestor's destruction must not
+    # consume the reference the dispatch holds on the window): every event kind, bound at depth 1 and 2
+    for kind, trig in (("e", "x0 f0"), ("f", "t%d"), ("g", "y%d"), ("g", "p%d"), ("g", "t%d p%d"), ("k", "t%d k"), ("m", "mp")):
+        for bound in (1, 2):
+            for n in (1, 2, 3):
+                for seq in itertools.permutations((0, 1, 2), n):
+                    for keep in ([], ["r1"], ["r2"]):
+                        stats["exhaustive"] += 1
+                        yield "W n0.0 n1.0 %s b%d.%s.%s.0.%s %s f0" % (
+                            " ".join(keep), bound, kind, "ff" if kind == "m" else "0", ",".join("u%d" % i for i in seq),
+                            trig.replace("%d", str(bound)))
+    # the terminal is resized: the root's geomchange handlers release / close the root or its children; then a flush
+    for body in ("u0", "c0,u0", "u1", "c1,u1", "u1,u0", "c1,u1,u0", "x0,f0", "-"):
+        for keep in ([], ["r0"]):
+            for where in (0, 1):
+                stats["exhaustive"] += 1
+                yield "W n0.0 %s b%d.g.0.0.%s Z f0 Z y0 f0" % (" ".join(keep), where, body)
+    # the expose handlers release the root itself (flush goes on using it), at the root and below
+    for where in (0, 1, 2):
+        for body in ("u0", "c1,u1,u0", "u1,u0", "c0,u0", "u0,u1"):
+            for keep in ([], ["r0"]):
+                stats["exhaustive"] += 1
+                yield "W n0.0 n1.0 %s b%d.e.0.0.%s x0 f0 f0" % (" ".join(keep), where, body)
     info["exhaustive"] = True
     info["exhaustive_scope"] = ("W: 2 tree shapes (two siblings; parent+child) x every sequence of <= %d calls over %s; "
                                 "16 flag combinations x 3 depths x 6 teardown orders; 4 restack kinds x 2 targets in a 3-level chain x 10 teardown orders; self-unbinding handlers x 5 nested dispatches x 3 positions x 3 event kinds; leaf handlers destroying an ancestor (focus/steal x kept references x 7 bodies x key/mouse); drag sources whose DRAG_OUTSIDE/DRAG_STOP handlers release themselves and their ancestors (2 depths x 8-13 bodies x 3 kept references x 3 event sequences)" % (L, " ".join(alpha)))
@@ -320,9 +395,13 @@ def gen_W(tier, seed, info):
     n_ev = 3500 if tier == "quick" else 120000
     for _ in range(n_ev):
         stats["event_random"] += 1
-        toks = gen_wf_script(rnd, rnd.randint(4, 14), True, False)
+        efg = rnd.random() < 0.5
+        toks = gen_wf_script(rnd, rnd.randint(4, 14), True, False, efg)
         # after the first event the generator no longer knows the state: add a few more events and a flush
-        toks += [rnd.choice(["k", "mp", "md", "mr", "mw", "f0"]) for _ in range(rnd.randint(0, 4))]
+        nw = 1 + sum(1 for t in toks if t[0] == 'n')
+        more = ["k", "mp", "md", "mr", "mw", "f0"] + (["x0", "f0", "Z", "t%d" % rnd.randrange(nw), "y%d" % rnd.randrange(nw),
+                                                       "p%d" % rnd.randrange(nw)] if efg else [])
+        toks += [rnd.choice(more) for _ in range(rnd.randint(0, 4))]
         yield "W " + " ".join(toks)
     # --- malformed stream: a well-formed prefix followed by calls the client has no right to make
     n_bad = 600 if tier == "quick" else 20000
